@@ -51,7 +51,7 @@ func (pr *prefixRec) directRecord(in ssa.Instruction, isPrefix func(ssa.Value) b
 // skipEdges: edges of fn on which skipping the record is admissible.
 func (pr *prefixRec) skipEdges(fn *ssa.Function, isPrefix func(ssa.Value) bool) []core.Edge {
 	var out []core.Edge
-	core.Instrs(fn, func(in ssa.Instruction) {
+	core.InstrsDeep(fn, func(in ssa.Instruction) {
 		ifi, ok := in.(*ssa.If)
 		if !ok {
 			return
